@@ -170,8 +170,9 @@ Fixpoint eval (e : expr) (env : nat -> bool) (cur : nat) (ins : list nat) (ml : 
       match eval c env cur ins ml st with
       | (NoMatch, ml', st') => (Match, ml', st')
       | (Match, _, st') =>
-          (* matches_clear: the WHOLE list.  T3: something pending before the negation is lost *)
-          (NoMatch, [], mkev (next_id st') (ev_t1 st') (ev_t2 st') (ev_t3 st' || negb (Nat.eqb (acts_left ml) 0)))
+          (* the matches appended below the negation are removed; whatever the list held before stays
+             (expr_eval_neg after the repair of F-02; before it the WHOLE list was cleared) *)
+          (NoMatch, ml, st')
       end
   | EMatch l r =>
       match eval l env cur ins (ml ++ [mkt MSentinel cur ins]) st with
